@@ -17,6 +17,10 @@ TEXT = {
         level="Seeded observation histories (boolean and real, with conditions) with interleaved clear(keepshape True/False) faults against every trace / fold reducer and the functional trace_* family; after each observation the latest value is compared with the float64 closed form over the event list since the last clear, an in-place twin must stay bit-identical, and time-indexed views (scalar, tensor, on and off the grid) and dumps are compared with the values the reducer itself reported at those steps.",
         ref="DESIGN.md 5.8", note="Continuous values use |a-b| <= 2e-5 + 2e-4|b|; views older than the first observation since a clear are not judged (nothing was recorded then).",
         technique="deterministic simulation: seeded event histories with clear faults vs float64 closed forms and the recorded history"),
+    "C10": dict(
+        level="Schedules: K contributor tasks' part contributions are interleaved by the seeded scheduler with a reader task (touching the cached .pos/.neg between appends), update / updatesome / clear / delete tasks; the pending-multiset model predicts old + ub(reduce(pos)) - lb(reduce(neg)) in float64 for every shipped half and full bounding function, a replica executing a permuted schedule must agree within rounding, nothing pending must leave the parameter bit-identical, and a spy reduction passed at construction must be the one called. A long-run mode applies up to 400 bounded updates with magnitudes inside the documented limits and checks the range / sharp invariants after every update.",
+        ref="DESIGN.md 5.11", note="Values beyond 1e12 (runaway unscaled power bounds) are not judged; tolerance 2e-5 + 2e-4|b|.",
+        technique="deterministic simulation: seeded task interleavings vs pending-multiset model, permuted-schedule replica, long-run invariant"),
     "C13": dict(
         level="Reconfiguration operations (dt, duration, inclusive, reconstrain add/edit/remove) issued from every reachable ring state (any pointer, any fill level, initialised or lazy storage) interleaved with the C01 operations; size formula, tail preservation, zero fill and constraint bookkeeping checked after every operation; a second sub-world drives ShapedTensor constraint bookkeeping (strict/non-strict, live, ignored storage).",
         ref="DESIGN.md 5.3", note="Edits of observation-dimension constraints that would resize the observation are outside the statement and skipped; strict constraints follow the documented minimum-dimensionality rule.",
